@@ -335,6 +335,72 @@ theorem janitor_removes_expired (st : State) (p : Port) (nowS : Int) (s : Sample
       s ∈ st.store ∧ ¬ (0 < p.retention ∧ s.oid = p.id ∧ 0 ≤ s.ts ∧ s.ts < (nowS - p.retention) * 1000) :=
   janitorPort_mem st p nowS s
 
+/-! ### A port removed and created again under the same id -/
+
+/-- **Typed like the port that exists now.**  When the port registered under an id is removed and a port `p` with the
+same id is created (any types: `DELETE /ports/{id}` + `POST /ports`), then in the resulting state the id names `p`,
+the stored samples are untouched (their removal is only scheduled), nothing memoised for the id survives and the cache
+invariant holds; hence a by-timestamp query and a range query of the id answer the specification's samples adapted with
+the type of the NEW port. -/
+theorem recreated_port_typed_like_new_port (cfg : Cfg) (hr : cfg.repaired = true) (st : State) (T : Int)
+    (hok : CacheOK st T) (p : Port) (now : Int) (tss : List Int) (frm to : Option Int) (limit : Option Nat) (desc : Bool) :
+    findPort (recreatePort st p) p.id = some p ∧ (recreatePort st p).store = st.store ∧
+    (∀ t, cacheGet (recreatePort st p).cache p.id t = none) ∧ CacheOK (recreatePort st p) T ∧
+    (hByTs cfg (recreatePort st p) p.id (ptypeOf (recreatePort st p) p.id) now tss).2.1 =
+      tss.map (fun t => ((newestLE st.store p.id t).map (adapt p.ptype)).map (fun v => (t, v))) ∧
+    hSlice (recreatePort st p) p.id (ptypeOf (recreatePort st p) p.id) frm to limit desc =
+      (pSlice st.store p.id frm to limit desc).map (fun s => (s.ts, adapt p.ptype s.val)) := by
+  have hs : (recreatePort st p).store = st.store := by rw [recreatePort_eq]
+  have hpt : ptypeOf (recreatePort st p) p.id = p.ptype := by unfold ptypeOf; rw [findPort_recreate_self]
+  refine ⟨findPort_recreate_self st p, hs, cacheGet_recreate_self st p, recreatePort_ok st p T hok, ?_, ?_⟩
+  · rw [by_timestamp_spec cfg hr _ T (recreatePort_ok st p T hok), hs, hpt]
+  · unfold hSlice; rw [hs, hpt]
+
+/-- **The removal scheduled by a port removal** (second half of a `janitor_task` iteration with a real date/time):
+exactly the samples stored under the ids of the removed ports disappear, the schedule is emptied, and the cache stays
+consistent; without a real date/time nothing happens and the schedule is kept. -/
+theorem scheduled_removal_exact (cfg : Cfg) (st : State) (pending : List Nat) (now T : Int) (hok : CacheOK st T) :
+    CacheOK (janitorPending cfg st pending now).1 T ∧
+    (now > cfg.oldLimit → (janitorPending cfg st pending now).2 = [] ∧
+      ∀ s, s ∈ (janitorPending cfg st pending now).1.store ↔ s ∈ st.store ∧ s.oid ∉ pending) ∧
+    (¬ now > cfg.oldLimit → janitorPending cfg st pending now = (st, pending)) := by
+  refine ⟨janitorPending_ok cfg st pending now T hok, ?_, ?_⟩
+  · intro hn
+    unfold janitorPending
+    rw [if_neg (by simpa using hn)]
+    by_cases he : pending = []
+    · subst he; simp
+    · have : pending.isEmpty = false := by cases pending <;> simp_all
+      rw [this]
+      refine ⟨rfl, fun s => ?_⟩
+      simp [hRemove, pRemove, removed, this]
+  · intro hn
+    unfold janitorPending
+    rw [if_pos hn]
+
+-- the hypotheses are met by a state with a memoised answer; the port changes from boolean to number
+example :
+    let st : State := ⟨[⟨1, 100, 86⟩], [((1, 150), some (.b true))], [{ id := 1, ptype := .boolean, interval := -1, last := none }]⟩
+    let st' := recreatePort st { id := 1, ptype := .number, interval := -1, last := none }
+    CacheOK st 1000 ∧ (hByTs {} st' 1 (ptypeOf st' 1) 999999999 [150]).2.1 = [some (150, .f 86)] ∧
+    (janitorPending {} st' [1] 1600000000000).1.store = [] := by
+  refine ⟨?_, by decide, by decide⟩
+  intro pid t v hv
+  have : pid = 1 ∧ t = 150 ∧ v = some (.b true) := by
+    simp only [cacheGet, alGet, List.find?] at hv
+    split at hv
+    · rename_i e he
+      split at he
+      · rename_i hb
+        simp at hb he
+        subst he
+        simp at hv
+        exact ⟨hb.1.symm, hb.2.symm, hv.symm⟩
+      · simp at he
+    · simp at hv
+  obtain ⟨rfl, rfl, rfl⟩ := this
+  exact ⟨by omega, by decide⟩
+
 /-! ### Non-vacuity: concrete instances of the hypotheses and of the functions -/
 
 -- a monotone history with queries, a delete between two identical queries, recordings and an hour-long jump
